@@ -154,7 +154,10 @@ def identify_missing_sections(existing_config: dict, all_sections: list[str]) ->
     Returns:
         List of section names missing from existing config
     """
-    return [s for s in all_sections if s not in existing_config]
+    # Config loading treats "magic_numbers" and "magic-numbers" as the same section, so a section
+    # present under either spelling is not missing (adding it again would override the user's values)
+    present = {key.replace("_", "-") for key in existing_config if isinstance(key, str)}
+    return [s for s in all_sections if s not in present]
 
 
 def _find_global_settings_position(content: str) -> int:
